@@ -38,6 +38,30 @@ def branch_conditions(cfg, node: int) -> list[tuple[int, bool]]:
     return [(t, v) for (t, v), b in cfg.branch.items() if cfg.dominates(b, node)]
 
 
+def literal_facts(cfg, node: int) -> dict[str, bool]:
+    """Truth value of plain conditions (by normalised text) on every path reaching ``node``.
+
+    A true branch of ``a and not b`` gives {a: True, b: False}; a false branch gives a fact only for a
+    single literal (``if not a: return`` makes ``a`` true afterwards).
+    """
+    from gv.astutil import norm_stmt as _ns
+
+    out: dict[str, bool] = {}
+    for (t, v), b in cfg.branch.items():
+        if not cfg.dominates(b, node):
+            continue
+        test = getattr(cfg.ast[t], "test", None)
+        if test is None:
+            continue
+        lits = conj_literals(test)
+        if v:
+            for pol, e in lits:
+                out[_ns(e)] = pol
+        elif len(lits) == 1:
+            out[_ns(lits[0][1])] = not lits[0][0]
+    return out
+
+
 def store_protocol(ctx: Ctx, prefix: str, which: set[str]) -> None:
     """Ordering facts of ``Database.store``.
 
